@@ -147,3 +147,24 @@ claim("C12", "DESIGN.md §2 C12",
       "than contacts learned, yield only peers that replied / well-formed public peers, never the searcher, nothing twice.",
       "Networks, schedules and fault sets are sampled; 'nodes closest to its hash' is asserted weakly (documented in the evidence "
       "assumptions); no node re-announces in the simulation.")
+claim("C18", "DESIGN.md §2 C18",
+      "model-based property testing: Hypothesis op histories (complete / publish / delete / behind-the-back file changes / crash windows between file and database writes / restarts) against a real BlobManager + file-backed SQLiteStorage, compared with the directory listing and a separate sqlite connection",
+      "Histories of up to 20 (thorough 30) ops run against the real BlobManager and SQLiteStorage in a temp dir: blob completion through a "
+      "writer with or without losing the database write, real stream publish with a crash after k database writes, remote streams leaving "
+      "pending rows, API deletions (also crashed after j file removals), files removed / dropped in behind the manager's back (known, "
+      "pending, unknown, invalid names, >500 files to cross the batch flush), rows deleted, clean and unclean restarts, repeated restarts. "
+      "After every restart: completed_blob_hashes is a subset of the files, every valid-named file has a finished row, every formerly "
+      "finished row without file is pending, an immediately repeated restart reports exactly the files; after an API deletion the hash is "
+      "gone from set, directory and (when requested) database.",
+      "Crash = the pending database task is dropped at a generated point (process death between file and database write); file-system "
+      "level corruption of sqlite itself is not modelled.")
+claim("C19", "DESIGN.md §2 C19",
+      "model-based property testing: generated blob populations (own / downloaded with and without file row / network-seeded / pending / sd), limits around current usage and 1..3 cleanup passes against the real DiskSpaceManager, judged by an independent row model",
+      "Populations of streams (own published, own by ownership update, downloaded with / without a file row) and network blobs with lengths from "
+      "{1, 2^20-1, 2^20, 2^20+1, 2 MiB, random} and generated ages (with ties) are installed through the real storage API with sparse files; "
+      "content and network limits are 0, usage+-k or huge; 1..3 passes of clean() or the split _clean() calls with optional additions "
+      "in between. The oracle is a model of the rows (it never calls get_stored_blobs): deletions only from a class over its limit, content "
+      "limit 0 = unlimited, own blobs never deleted, afterwards within the limit or nothing removable left, freed space minus the largest "
+      "deleted blob below the excess in whole MB, deleted blobs gone from disk / database / completed set, return value = number deleted.",
+      "The class an sd blob of a known stream belongs to is not defined by the statement: its deletion under either excess is a labelled "
+      "don't-care; usage accounting is compared in whole MB as the manager reports it.")
